@@ -635,6 +635,16 @@ def op_mkusys(w, op):
     return repr(sysobj)
 
 
+def op_mkusys_bad(w, op):
+    """A UnitSystem construction that must be REFUSED (a mass symbol as the length unit, an unknown symbol ...),
+    under a built-in system's name or a fresh one.  A refused construction changes nothing - in particular not the
+    process-global table of unit systems."""
+    unyt, lt, dims, uo, ur, us = _U()
+    node = w.node(op)
+    reg = node.handles[op.get("h", 0) % len(node.handles)]
+    return repr(us.UnitSystem(op["name"], op["len"], op["mass"], op["time"], registry=reg))
+
+
 def _the_system(w, name):
     unyt, lt, dims, uo, ur, us = _U()
     if name in BUILTIN_SYSTEMS:
@@ -807,7 +817,7 @@ PROBES = {
     "to": op_to, "to_unit": op_to_unit, "binop": op_binop, "unop": op_unop, "base": op_base,
     "unitop": op_unitop, "simplify": op_simplify, "units_of": op_units_of, "rebind": op_rebind,
     "namespace": op_namespace, "copyobj": op_copyobj,
-    "mkusys": op_mkusys, "usys_get": op_usys_get, "usys_set": op_usys_set,
+    "mkusys": op_mkusys, "mkusys_bad": op_mkusys_bad, "usys_get": op_usys_get, "usys_set": op_usys_set,
     "list_same": op_list_same, "regview": op_regview, "arrlist": op_arrlist,
 }
 
